@@ -202,6 +202,7 @@ class KindEngine:
         self.node_kinds: dict[int, Kind] = {}
         self.unresolved_calls = 0
         self.resolved_calls = 0
+        self.edges: dict[str, set[str]] = {}        # resolved call graph: caller qualname -> callee qualnames
         self.changed = False
         self.module_consts: dict[tuple[str, str], ast.expr] = {}
         for path, mod in program.modules.items():
@@ -668,6 +669,7 @@ class _KInterp(AbsInt):
                             targets.append(ci.methods[name])
             else:
                 targets = eng.p.methods_named(name)
+                self._by_name = len(targets) > 1          # ambiguous: not recorded as call-graph edges
         if ch and ch[-1] == "__class__" and self.fi.cls:
             return self.call_ctor(c, self.fi.cls, argk, kwk)
         if not targets:
@@ -678,6 +680,7 @@ class _KInterp(AbsInt):
         for t in targets:
             self.pass_args(c, t, argk, kwk, skip_self=not t.is_static)
             out = join(out, eng.ret_kinds.get(t.qualname, BOT))
+        self._by_name = False
         return out
 
     def call_ctor(self, c: ast.Call, cls: str, argk, kwk) -> Kind:
@@ -705,6 +708,8 @@ class _KInterp(AbsInt):
 
     def pass_args(self, c: ast.Call, t: FuncInfo, argk, kwk, skip_self: bool) -> None:
         eng = self.e
+        if not getattr(self, "_by_name", False):
+            eng.edges.setdefault(self.fi.qualname, set()).add(t.qualname)
         params = t.params[1:] if (skip_self and t.cls and t.parent_func is None) else t.params
         for i, k in enumerate(argk):
             if i < len(params):
